@@ -29,6 +29,10 @@ def color666 : List String → Option String
   | ["site", l, op, i] => do
       let l ← parseInt? l; let i ← parseIdx? i; let op ← parseOp? op
       pure (if Color666.isSite i.1 i.2 then showBits (Color666.site l op (Color666.identity l) i) else "IndexError")
+  | ["sites", l, op, v, is] => do
+      let l ← parseInt? l; let op ← parseOp? op; let v ← parseBits? v; let is ← parseIdxList? is
+      if v.length != 2 * (Color666.nQubits l).toNat then none
+      else pure (sitesCall (fun i => Color666.isSite i.1 i.2) (Color666.site l op) v is)
   | ["opat", l, v, i] => do
       let l ← parseInt? l; let v ← parseBits? v; let i ← parseIdx? i
       pure (if Color666.isSite i.1 i.2 && Color666.inBounds l i.1 i.2
